@@ -29,6 +29,10 @@ theorem xor_fits (a b : Bytes) : fromLE a ^^^ fromLE (b.take a.length) < 256 ^ a
   · rw [← pow256]
     exact Nat.lt_of_lt_of_le (fromLE_lt _) (Nat.pow_le_pow_right (by omega) (by simp; omega))
 
+/-- `do let v ← x; pure v` is `x` (what a single-exit rewrite — bind a local in every branch, return it once — unfolds to) -/
+@[simp] theorem except_match_eta {ε α : Type} (x : Except ε α) :
+    (match x with | .error e => Except.error e | .ok v => Except.ok v) = x := by cases x <;> rfl
+
 /-! Slice forms that agree once a length guard has been passed (`x[0:8]`, `x[8:16]`, `x[8:]`, `x[-8:]` on a 16-byte
 `x`): used as a fall-back by the refinement proofs, so that a rewrite of one form into another does not break them. -/
 
